@@ -8,6 +8,7 @@ import CircBuf.Lemmas.Drain
 import CircBuf.Lemmas.Contents
 import CircBuf.Lemmas.ExtendSlice2
 import CircBuf.Lemmas.History
+import CircBuf.Lemmas.HistoryFull
 import CircBuf.Lemmas.Fill
 /-!
 # C01 — every mutator implements bounded-deque sequence semantics
@@ -163,6 +164,20 @@ theorem C01_history_from_new (cap : Nat) (hc : cap < W) (ops : List Op) (k : Kin
     (runOps ops { buf := CB.new cap, kind := k }).1 = (Spec.runOps cap ops []).1 ∧
     abs (runOps ops { buf := CB.new cap, kind := k }).2.buf = (Spec.runOps cap ops []).2 :=
   history_from_new cap hc ops k
+
+/-- **every finite history over the whole mutator API**: the fourteen core operations and `extend`,
+`extend_from_slice`, `fill`, `fill_spare`, `fill_with`, `fill_spare_with`, `clone_from` (user code that
+does not panic; identity-tracked elements), in any order and number, from any state satisfying the
+invariant: outputs and final contents are those of the abstract deque, whose state is the sequence
+and the counter new identities are drawn from -/
+theorem C01_history_full (cap : Nat) (ops : List OpX) (s : Sys) (g : GoodX cap s) :
+    (runOpsX ops s).1 = (Spec.runOpsX cap ops (abs s.buf) s.next).1 ∧
+    abs (runOpsX ops s).2.buf = (Spec.runOpsX cap ops (abs s.buf) s.next).2 ∧ GoodX cap (runOpsX ops s).2 :=
+  historyX_refines cap ops s g
+
+/-- non-vacuity: `new()` of any capacity `< 2^64` is a good start for such a history -/
+example (cap : Nat) (hc : cap < W) : GoodX cap { buf := CB.new cap } :=
+  ⟨(inv_new' cap hc).1, rfl, rfl, rfl⟩
 
 /-- non-vacuity: a wrapped, full buffer of capacity 3 (front position 2) satisfies the invariant -/
 example : Inv ⟨3, 3, 2, fun i => some ⟨i + 1, 10 * i⟩⟩ := by
